@@ -687,6 +687,35 @@ Section ENTRIES.
       destruct (on_entries_cols_inv _ _ _ _ Hb Hc1 E) as [Hb' Hsent].
       apply Forall_app. split; [exact Hsent|apply IH; [exact Hb'|exact Hc2]].
   Qed.
+
+  (* fourth session: the same with the invariant itself (every column of a sent request has ONE length and the request has
+     exactly the fields sf / tf), which is what the shared batch of the insert service needs *)
+  Lemma on_entries_cols_inv_sent : forall b e b' sent, lbatch_inv b -> ent_consistent e = true ->
+    on_entries_cols p sf tf b e = LOk b' sent -> lbatch_inv b' /\ Forall lbatch_inv sent.
+  Proof.
+    destruct ok_parts as [Hf [Hs Ht]].
+    intros b e b' sent [n [k [Hb1 Hb2]]] Hc H. unfold on_entries_cols in H. cbv zeta in H.
+    destruct (en_lbl_short e); [discriminate|].
+    destruct (en_bad_type e || Nat.ltb (en_msg e) (en_ts e)); [discriminate|].
+    rewrite (fold_spl_consistent e _ _ Hc), Hb1, Hb2, (bump_fields_const _ _ _ _ Hs), (bump_fields_const _ _ _ _ Ht) in H.
+    match type of H with context [(MiB <? lb_size ?x)%N] => set (b3 := x) in H end.
+    assert (Hb3 : lbatch_inv b3) by (eexists; eexists; split; reflexivity).
+    destruct (MiB <? lb_size b3)%N; inversion H; subst; clear H.
+    - rewrite Hf. split; [exact lbatch0_inv|]. constructor; [exact Hb3|constructor].
+    - split; [exact Hb3|constructor].
+  Qed.
+
+  Lemma sent_lbatches_inv : forall evs b, lbatch_inv b -> events_consistent evs = true ->
+    Forall lbatch_inv (sent_lbatches p sf tf b evs).
+  Proof.
+    induction evs as [|ev evs IH]; intros b Hb Hc; cbn [sent_lbatches].
+    - constructor; [exact Hb|constructor].
+    - cbn [events_consistent forallb] in Hc. apply andb_true_iff in Hc as [Hc1 Hc2].
+      destruct ev as [e| |t]; [|constructor|constructor].
+      destruct (on_entries_cols p sf tf b e) as [b' sent|] eqn:E; [|constructor].
+      destruct (on_entries_cols_inv_sent _ _ _ _ Hb Hc1 E) as [Hb' Hsent].
+      apply Forall_app. split; [exact Hsent|apply IH; [exact Hb'|exact Hc2]].
+  Qed.
 End ENTRIES.
 
 Lemma on_entries_cols_model_ok :
